@@ -260,16 +260,15 @@ def line_kind(isa, line):
     if isa == "x86":
         if "(" not in ops:
             return "x86-register-only"
-        last = ops.split(",")[-1].strip()
-        # AT&T: destination last; memory destination
-        mem_dst = ")" in ops[ops.rfind(",") + 1:] if "," in ops else True
-        if ops.rstrip().endswith(")") or mem_dst and last.endswith(")"):
-            if re.match(r"^v?mov|^push|^set", mn):
-                return "x86-store"
-            if re.match(r"^cmp|^test|^v?u?comis", mn):
-                return "x86-memory-source"
-            return "x86-read-modify-write-memory"
-        return "x86-memory-source"
+        last = re.split(r",(?![^(]*\))", ops)[-1].strip()
+        if "(" not in last:
+            return "x86-memory-source"
+        # AT&T: the destination is written last
+        if re.match(r"^v?mov|^push|^set|^v?extract|^v?pextr", mn):
+            return "x86-store"
+        if re.match(r"^cmp|^test|^v?u?comis|^prefetch", mn):
+            return "x86-memory-source"
+        return "x86-read-modify-write-memory"
     wb = "!" in ops or re.search(r"\]\s*,", ops) is not None
     if re.match(r"^(ld|ldr|ldp|ldur|ld1|ldnp)", mn):
         return "aarch64-load-writeback" if wb else "aarch64-load"
